@@ -58,6 +58,10 @@ impl Constraint {
                 max = (*i).max(max);
             };
         };
+        if let Constraint::Subtype(set) = self {
+            // the extension marker may also follow the element set, e.g. `((1..5), ...)`
+            is_extensible = is_extensible || set.extensible;
+        }
         if min > max || is_extensible {
             IntegerType::Unbounded
         } else if min >= 0 {
